@@ -1213,6 +1213,72 @@ Section Flat.
       cbn [existsb frame_eqb orb]. rewrite orb_false_r. exact H.
   Qed.
 
+  (** #if with calls in its branches (C04): the chosen branch is expanded where the #if stands *)
+  Lemma fresh_items_fn stk fn page : fresh_items (stk ++ [FFn fn]) page = fresh_items stk page.
+  Proof.
+    unfold fresh_items. induction page as [|i page IH]; [reflexivity|]. cbn [forallb]. rewrite IH. f_equal.
+    destruct i as [c|[|n args]| | | |]; try reflexivity.
+    rewrite existsb_app. cbn [existsb]. rewrite !orb_false_r. reflexivity.
+  Qed.
+
+  Lemma nth_flat (l : list enc) n : forallb (forallb flat_item) l = true -> forallb flat_item (nth n l []) = true.
+  Proof.
+    revert n. induction l as [|a l IH]; intros n H; [destruct n; reflexivity|].
+    cbn in H. apply andb_true_iff in H. destruct H as [Ha Hl]. destruct n; [exact Ha | apply IH; exact Hl].
+  Qed.
+
+  Lemma nth_fresh stk (l : list enc) n : forallb (fresh_items stk) l = true -> fresh_items stk (nth n l []) = true.
+  Proof.
+    revert n. induction l as [|a l IH]; intros n H; [destruct n; reflexivity|].
+    cbn in H. apply andb_true_iff in H. destruct H as [Ha Hl]. destruct n; [exact Ha | apply IH; exact Hl].
+  Qed.
+
+  Theorem if_calls cond more :
+    FlatCall.if_calls_ok pfnames lib cond more = true -> o_parserfns opts = true -> o_tfn opts = [] -> o_pfn opts = [] ->
+    exists F, forall stk ea fuel, (length stk < 98)%nat -> forallb (fresh_items stk) more = true -> (F <= fuel)%nat ->
+      expand_T fuel stk ea ((if_head ++ cond) :: more) = Some (FlatCall.if_calls_result lib cond more).
+  Proof.
+    intros Hok Hpf Htfn Hpfn. unfold FlatCall.if_calls_ok in Hok. apply andb_true_iff in Hok. destruct Hok as [Hc Hm].
+    destruct (expand_items_at (nth 0 more []) (nth_flat more 0 Hm) Htfn Hpfn) as [F0 HF0].
+    destruct (expand_items_at (nth 1 more []) (nth_flat more 1 Hm) Htfn Hpfn) as [F1 HF1].
+    exists (length cond + F0 + F1 + 20)%nat.
+    intros stk ea fuel Hdepth Hfresh Hf. destruct fuel as [|f]; [lia|]. destruct f as [|f']; [lia|].
+    rewrite expand_T_S. replace (Nat.leb 100 (length stk)) with false by (symmetry; apply Nat.leb_gt; lia).
+    assert (Hp : plain (if_head ++ cond) = true) by (rewrite plain_app, Hc; reflexivity).
+    rewrite (expand_recurse_plain pfnames lib opts _ Hp) by (rewrite app_length; cbn; lia).
+    cbv beta iota zeta. rewrite strip_if_head.
+    assert (Hcodes : codes (if_head ++ rstrip_i cond) = 35 :: 105 :: 102 :: 58 :: codes (rstrip_i cond)) by reflexivity.
+    rewrite Hcodes. cbn [index_of N.eqb Pos.eqb firstn skipn].
+    assert (Hcanon : Expand.canon_pf pfnames [35; 105; 102] = [35; 105; 102]).
+    { unfold Expand.canon_pf. cbn [collapse_ws_us is_space N.eqb orb]. destruct (in_names _ pfnames); reflexivity. }
+    replace (35 =? 58) with false by reflexivity. replace (105 =? 58) with false by reflexivity.
+    replace (102 =? 58) with false by reflexivity. replace (58 =? 58) with true by reflexivity.
+    cbv beta iota. cbn [firstn]. rewrite Hcanon.
+    assert (Hcl : Expand.classify_pf pfnames [35; 105; 102] = PfIf) by reflexivity. rewrite Hcl.
+    cbn [skipn if_head chars s_if map app].
+    rewrite expand_pf_S. rewrite Hpf. cbn [negb].
+    set (c0 := lstrip_i (rstrip_i cond)).
+    assert (Hc0 : plain c0 = true) by (apply plain_lstrip, plain_rstrip; exact Hc).
+    assert (Lc0 : (length c0 <= length cond)%nat).
+    { unfold c0, rstrip_i. assert (Ll : forall y, (length (lstrip_i y) <= length y)%nat).
+      { induction y as [|z y IHy]; [cbn; lia|]. cbn [lstrip_i]. destruct (sp_item z); cbn; lia. }
+      etransitivity; [apply Ll|]. rewrite rev_length. etransitivity; [apply Ll|]. rewrite rev_length. lia. }
+    cbn [nth].
+    rewrite (expand_recurse_plain pfnames lib opts c0 Hc0) by lia.
+    cbn [option_map].
+    assert (Hstrip : strip_i c0 = strip_i cond).
+    { unfold c0, strip_i. rewrite lstrip_idem, lstrip_rstrip_comm, rstrip_idem. reflexivity. }
+    rewrite Hstrip.
+    unfold FlatCall.if_calls_result.
+    set (stk2 := ((stk ++ [FFn [35; 105; 102]]) ++ [FFn [35; 105; 102]])).
+    assert (Hd2 : (length stk2 < 100)%nat) by (unfold stk2; rewrite !app_length; cbn; lia).
+    assert (Hfr : forall n, fresh_items stk2 (nth n more []) = true).
+    { intros n. unfold stk2. rewrite !fresh_items_fn. apply nth_fresh. exact Hfresh. }
+    destruct (strip_i cond) eqn:Es.
+    - rewrite (HF1 stk2 f' Hd2 (Hfr 1%nat)) by lia. reflexivity.
+    - rewrite (HF0 stk2 f' Hd2 (Hfr 0%nat)) by lia. reflexivity.
+  Qed.
+
   Lemma values_plain_nested outer args : forallb (nested_arg_ok outer) args = true ->
     forall num ht, values_plain ht = true -> values_plain (bind_nested args num ht) = true.
   Proof.
